@@ -36,6 +36,7 @@ def closure_partitions(tier):
 
 
 def run(tier):
+    nk = 6 if tier == 'thorough' else 5     # index kinds in eq_indexes
     obs = [
         Obligation('field_eq_diff', 'harness/c05.py', 'h_field_eq_diff',
                    partitions=[[t, m] for t in range(6) for m in ((3, 5, 17, 6, 18, 20) if tier == 'quick' else (31,))],
@@ -49,8 +50,8 @@ def run(tier):
                    bounds='unique_together x index_together from 6 values each side (incl. reordered and overlapping tuples)',
                    functions=SIG),
         Obligation('eq_indexes', 'harness/c05.py', 'h_eq_indexes',
-                   partitions=[[a, b] for a in range(5) for b in range(5)], timeout=(240 if tier == 'quick' else 1500),
-                   what='same, Meta.indexes: two slots per side from 5 index kinds (named/unnamed, ordering prefix, attrs) with optional reordering',
+                   partitions=[[a, b] for a in range(nk) for b in range(nk)], timeout=(240 if tier == 'quick' else 1500),
+                   what='same, Meta.indexes: two slots per side from 6 index kinds (named/unnamed, ordering prefix, attrs, expression index with a condition) with optional reordering',
                    bounds='5^4 x 2^2 index-list pairs', functions=SIG),
         Obligation('eq_constraints', 'harness/c05.py', 'h_eq_constraints',
                    partitions=[[a, b] for a in range(3) for b in range(3)], timeout=(240 if tier == 'quick' else 1500),
@@ -67,9 +68,13 @@ def run(tier):
                    what='hint closure for unique_together / index_together changes',
                    bounds='6^4 (old, new) value combinations', functions=CLOS),
         Obligation('closure_indexes', 'harness/c05.py', 'h_closure_indexes',
-                   partitions=[[a, b] for a in range(5) for b in range(5)], timeout=(240 if tier == 'quick' else 1500),
+                   partitions=[[a, b] for a in range(6) for b in range(6)], timeout=(240 if tier == 'quick' else 1500),
                    what='hint closure for Meta.indexes and Meta.constraints changes',
-                   bounds='indexes: 5^4 x 2 (old two slots, new two slots, reordered); constraints: 3^3 x 2', functions=CLOS),
+                   bounds='indexes: 6^4 x 2 (old two slots, new two slots, reordered; 6 kinds incl. an expression index with a condition); constraints: 3^3 x 2', functions=CLOS),
+        Obligation('closure_meta_mix', 'harness/c05.py', 'h_closure_meta_mix',
+                   partitions=[[a, b] for a in range(3) for b in range(3)], timeout=(240 if tier == 'quick' else 1500),
+                   what='hint closure when unique_together, index_together, indexes and constraints of one model change in the same diff',
+                   bounds='2^4 togethers x 3^2 one index slot x 3^2 one constraint slot (db_table_comment: not changeable on SQLite, outside)', functions=CLOS),
     ]
     return run_check('C05', obs, tier,
                      assumptions=['diff.get_model (initial-value lookup on the live model) is stubbed: the field has/has no default as a symbolic flag says, default value symbolic',
